@@ -33,6 +33,7 @@ extern "C" __attribute__((noinline)) void h_realrefs() {
   verif_check(ok == expect, 5);                                      // decided from the set of reference heights
   if (ok) { auto* b3 = t.btc().getBlockIndex(w.btcById[3].getHash()); verif_check(b3 != nullptr && b3->getRefs().size() == 1 && b3->getRefs()[0] == (int)cC - 1, 6); verif_cover(1); }
   else { verif_check(t.getBlockIndex(altHash(5))->hasFlags(BLOCK_FAILED_POP), 7); verif_cover(2); }
+  verif_check(vbkIndexExact(t), 8);
   if (cA > cC && cB <= cC) verif_cover(3);                           // the FIRST recorded reference is too high, the second one is not
   if (detour) verif_cover(4);
 }
